@@ -10,6 +10,8 @@ import (
 	"sync/atomic"
 
 	jsonv2 "github.com/go-json-experiment/json"
+	"github.com/go-json-experiment/json/jsontext"
+	jsonv1 "github.com/go-json-experiment/json/v1"
 
 	"verif/internal/enum"
 	"verif/internal/evid"
@@ -66,7 +68,8 @@ func rootTypes() []reflect.Type {
 		reflect.TypeOf(map[string]*map[string]int{}), reflect.TypeOf([2][]int{}), reflect.TypeOf([][2]int{}), reflect.TypeOf(map[string]struct {
 			A *int
 			B []string
-		}{}), reflect.TypeOf([]map[string]*S2{}), reflect.TypeOf(map[string]map[string]map[string]any{}), reflect.TypeOf(&[]*[]any{}))
+		}{}), reflect.TypeOf([]map[string]*S2{}), reflect.TypeOf(map[string]map[string]map[string]any{}), reflect.TypeOf(&[]*[]any{}),
+		reflect.TypeOf([2]any{}), reflect.TypeOf([1]any{}), reflect.TypeOf(map[string][1]any{}), reflect.TypeOf([2]map[string]int{}), reflect.TypeOf([2][]int{}), reflect.TypeOf([2]*S2{}), reflect.TypeOf(struct{ A [2]any }{}), reflect.TypeOf([][1]any{}), reflect.TypeOf([1][1]any{}))
 }
 
 func rootTypes0() []reflect.Type {
@@ -92,7 +95,7 @@ func texts(t reflect.Type, depth int) []string {
 	case reflect.Pointer:
 		return texts(t.Elem(), depth)
 	case reflect.Interface:
-		out := []string{"1", `"s"`, "null", "[1]", `[{"q":1}]`, `{"a":1}`, `{"b":2}`}
+		out := []string{"1", `"s"`, "null", "[1]", `[{"q":1}]`, `{"a":1}`, `{"b":2}`, "[]", "[1,2,3]", `[{"r":2},{"q":3}]`}
 		if depth > 0 {
 			out = append(out, `{"a":{"x":1}}`, `{"a":{"y":2},"b":3}`, `{"a":{"x":{"p":1}}}`, `{"a":{"x":{"q":2}}}`, `{"a":null}`, `{"a":[1,2]}`)
 		}
@@ -231,6 +234,22 @@ type Case struct {
 
 // checkChain applies the chain sequentially and in merged form.
 func checkChain(t reflect.Type, chain []string) (msg string) {
+	if msg = checkChainOpts(t, chain, nil); msg != "" {
+		return msg
+	}
+	// spelling the defaults out must change nothing (option plumbing: "specified" is not "true")
+	if len(chain) == 2 {
+		if msg = checkChainOpts(t, chain, []jsonv2.Options{jsonv2.DefaultOptionsV2()}); msg != "" {
+			return "with DefaultOptionsV2() passed explicitly: " + msg
+		}
+		if msg = checkChainOpts(t, chain, []jsonv2.Options{jsonv1.MergeWithLegacySemantics(false), jsontext.AllowDuplicateNames(false)}); msg != "" {
+			return "with MergeWithLegacySemantics(false) passed explicitly: " + msg
+		}
+	}
+	return ""
+}
+
+func checkChainOpts(t reflect.Type, chain []string, opts []jsonv2.Options) (msg string) {
 	defer func() {
 		if p := recover(); p != nil {
 			msg = fmt.Sprintf("library panic: %v", p)
@@ -239,7 +258,7 @@ func checkChain(t reflect.Type, chain []string) (msg string) {
 	seq := reflect.New(t)
 	var acc *refjson.Value
 	for _, j := range chain {
-		if err := jsonv2.Unmarshal([]byte(j), seq.Interface()); err != nil {
+		if err := jsonv2.Unmarshal([]byte(j), seq.Interface(), opts...); err != nil {
 			return "" // the law only speaks about chains that succeed
 		}
 		tr := refjson.Tree([]byte(j), refjson.Opts{})
@@ -250,7 +269,7 @@ func checkChain(t reflect.Type, chain []string) (msg string) {
 	}
 	merged := refjson.Canonicalish(acc)
 	one := reflect.New(t)
-	if err := jsonv2.Unmarshal(merged, one.Interface()); err != nil {
+	if err := jsonv2.Unmarshal(merged, one.Interface(), opts...); err != nil {
 		return "" // e.g. an array longer than the Go array after merging is not expressible
 	}
 	lawApplied.Add(1)
@@ -294,7 +313,7 @@ func Replay(r *evid.Run, raw json.RawMessage) {
 }
 
 func Run(r *evid.Run) {
-	r.Rule("31 merge-capable root types (structs with scalar / pointer / map / slice / array / any / embedded members, maps of structs / pointers / slices / maps / any, slices of structs / pointers / any / maps, arrays, pointer-to-pointer fields, embedded pointers, unknown-member fallback maps, pointers to slices and maps, omit/string/case tags) x texts generated to fit each type (absent, null, every value variant, unknown members, arrays of different lengths, overlapping and disjoint keys, nested objects below any) x ALL ordered pairs (j1, j2) and chains of length 3 over a stride (thorough: ALL chains of 3, and chains of 4 over a third of the middle texts): unmarshaling the chain sequentially into one value DeepEquals unmarshaling merge(j1..jk) into a zero value, where merge is computed on reference value trees (objects union recursively, everything else takes the later side); chains where a step fails are outside the law. evaluations = chains executed; distinct_nontrivial = distinct chains in which every step succeeded and at least one object member was merged or replaced")
+	r.Rule("40 merge-capable root types (structs with scalar / pointer / map / slice / array / any / embedded members, maps of structs / pointers / slices / maps / any, slices of structs / pointers / any / maps, arrays, pointer-to-pointer fields, embedded pointers, unknown-member fallback maps, pointers to slices and maps, omit/string/case tags) x texts generated to fit each type (absent, null, every value variant, unknown members, arrays of different lengths, overlapping and disjoint keys, nested objects below any) x ALL ordered pairs (j1, j2) (each also with DefaultOptionsV2() and with MergeWithLegacySemantics(false) spelled out explicitly) and chains of length 3 over a stride (thorough: ALL chains of 3, and chains of 4 over a third of the middle texts): unmarshaling the chain sequentially into one value DeepEquals unmarshaling merge(j1..jk) into a zero value, where merge is computed on reference value trees (objects union recursively, everything else takes the later side); chains where a step fails are outside the law. evaluations = chains executed; distinct_nontrivial = distinct chains in which every step succeeded and at least one object member was merged or replaced")
 	r.Assume("reference value tree + the merge definition of the property statement")
 	ts := rootTypes()
 	depth := 2
